@@ -10,7 +10,7 @@ from jmon import actions as A
 from jmon import envs as E
 from jmon.common import Report, key_for, shard_rng
 from jmon.modelapi import DENSE_SPARSE, REQUIRED_FN, SCOPE, ModelCtx, split_problem
-from jmon.props._util import HEAVY, env_cfg_shards, step_cap
+from jmon.props._util import HEAVY, deep_episodes, env_cfg_shards, step_cap
 from jmon.rollout import POLICIES, Event, Monitor, Runner, run_episode
 
 SHARD_TIMEOUT = {"quick": 1200, "thorough": 3000}
@@ -354,6 +354,7 @@ def make_probe_fn(prop: str, runner: Runner, P: ModelCtx, rng: np.random.Generat
         return None
     per_episode = (6 if prop == "C05" else 3) if tier == "quick" else 10
     state = {"episode": -1, "n": 0}
+    tune = {"rate": None, "per_episode": None}  # set by the shard runner for deep episodes: probes spread over the whole run
     kind = A.MASK_KIND[runner.env_name]
     spec = runner.spec
     lo, hi = A.spec_bounds(spec)
@@ -362,10 +363,13 @@ def make_probe_fn(prop: str, runner: Runner, P: ModelCtx, rng: np.random.Generat
     def fn(ev: Event):
         if ev.episode != state["episode"]:
             state["episode"], state["n"] = ev.episode, 0
-        if state["n"] >= per_episode:
+        if state["n"] >= (tune["per_episode"] or per_episode):
             return []
         # probe the first states of an episode and then a random third of the later ones
-        if ev.t > 1 and rng.random() > (0.6 if prop == "C05" else 0.35):
+        if tune["rate"] is not None:
+            if rng.random() > tune["rate"]:
+                return []
+        elif ev.t > 1 and rng.random() > (0.6 if prop == "C05" else 0.35):
             return []
         state["n"] += 1
         budget = 512 if mode == "all" else 8
@@ -404,6 +408,7 @@ def make_probe_fn(prop: str, runner: Runner, P: ModelCtx, rng: np.random.Generat
             chosen = [A.sample_random(spec, rng) for _ in range(2 * half)]
         return [(a, {}) for a in chosen]
 
+    fn.tune = tune
     return fn
 
 
@@ -467,10 +472,19 @@ def run_model_shard(prop: str, shard: Dict[str, Any], rep: Report) -> None:
         c2["reward"] = "dense" if cfg.get("reward") == "sparse" else "sparse"
         twin = Runner(name, c2)
 
+    n_ordinary = len(pols)
+    deep = deep_episodes(name, cfg, tier, extra) if prop != "C11" else []
+    pols = pols + [d[0] for d in deep]
     for ep, pol in enumerate(pols):
         key, kint = key_for(seed, sid, ep)
         P.shadow = {}
         c = cap
+        if ep >= n_ordinary:
+            c = deep[ep - n_ordinary][1]
+            rep.count("deep_episodes")
+            rep.env_count(name, "deep_episodes")
+            if probe_fn is not None:
+                probe_fn.tune.update(rate=16.0 / c, per_episode=16)
         if prop == "C11":
             L = mon.L
             c = (L + 3) if (L is not None and L <= (60 if tier == "quick" else 1200)) else cap
@@ -482,6 +496,8 @@ def run_model_shard(prop: str, shard: Dict[str, Any], rep: Report) -> None:
         rep.env_count(name, "episodes")
         if info["ended"]:
             rep.env_count(name, "episodes_ended")
+        if ep >= n_ordinary:
+            rep.env_count(name, "deep_steps", info["steps"])
         if len(rep.samples) < 2 and info["steps"] >= 1:
             tr = info["trace"]
             rep.sample({
